@@ -422,7 +422,7 @@ PROPS['C10'] = dict(
          'seeded random subsets for both types; thorough: all-on, all-off, the 23 single-off, the 23 single-on and 40 seeded random subsets for both types. Each tape yields up to 6 sub-cases over 58 complex operations (field arithmetic incl. '
          'real/imaginary scalar and in-place forms, inv, conj, neg, polar, abs/abs2/logabs/arg, sqrt, pow, pow_real, exp, log, log2, log10, logb, six trigonometric, six inverse, six hyperbolic, six inverse hyperbolic), 7 real-argument variants '
          'and the inverse pairs (mul/div by the same real, imaginary and complex operand, exp(log z), log(exp z)). Arguments: modulus log-uniform over 2^-27..2^27 (2^-26..2^26 for float) or from a dictionary of formula-switch values +-4 ulp, or up to 2^+-1000 for operations whose true result stays representable; for the inverse families one case in five is constructed on the region boundaries of the usual asin/acos algorithm (a = (|z+1|+|z-1|)/2 = 1.5, |Re z|/a = 0.6417, |Re z| = 1) and at their pairwise intersections within 1e-6..1e-16, mapped through the reductions of asinh/acsc/asec/acsch/asech; linked sub-cases call the previous two-operand function again with its second operand mapped through a one-operand library function (results inside the ordinary modulus window); angle '
-         'class = interior of each quadrant, near an axis (relative distance 1e-6..1e-3), or exactly on an axis; points closer than 2e-6*|z| to a branch cut of the function are moved off the cut (counted), poles/overflows of the true value are skipped (counted). '
+         'class = interior of each quadrant, near an axis (relative distance 1e-6..1e-3), exactly on an axis, or the origin itself (the zero branches of sqrt / pow / pow_real / arg / acot ...: judged wherever the reference is finite there, base 0 of logb left out); points closer than 2e-6*|z| to a branch cut of the function are moved off the cut (counted), poles/overflows of the true value are skipped (counted). '
          'Oracle: glibc long double complex functions (principal values, ISO C Annex G); accept |got-ref| <= K*u*(|ref| + kappa), kappa = max over directions {1, i} (and the second operand) of |f(z+eps|z|d)-f(z)|/eps with eps = 2^-30, evaluated by the '
          'same reference. non-trivial = z off both axes with modulus outside [0.5, 2] or within 1e-3 of an axis, every real-argument and pair case; distinct = (configuration, function, argument bits)',
     assumptions=COMMON_ASSUME + ['reference: glibc csqrtl/cpowl/cexpl/clogl/csinl/.../catanhl in x87 long double; reciprocal families as 1/f resp. f(1/z) in long double',
